@@ -38,7 +38,8 @@ def to_layout(L, seed):
     R = random.Random(seed)
     files, datas = [], []
     for i, f in enumerate(L["files"]):
-        name = f"{['d', 'f', 'sub/x', 'ü'][i % 4]}{i}"
+        # names: a code unit whose low byte is 00 right after a Latin-1 character (一, combining accent, U+3000, U+0100), astral planes
+        name = f"{['d', 'x一', 'sub/e\u0300', 'ü', 'a\u3000b', 'f', 'n\U0001F600', '\u0100z', 'sub/k\U00020BB7', 'g'][(i + seed) % 10]}{i}"
         e = {"name": name, "kind": {"file": "file", "dir": "dir", "empty": "empty"}[f["k"]]}
         if f["k"] == "file":
             n = R.choice([1, 5, 40, 300, 2000])
@@ -77,6 +78,23 @@ def to_layout(L, seed):
     if need_pw or hdr == "aes":
         lay["password"] = "secret"
     return lay, datas
+
+
+def big_layout(R, n):
+    """a well-formed layout record (Header.tla's WellFormedLayout) with n files"""
+    files = [{"k": R.choice(["file", "file", "file", "dir", "empty"]), "attr": R.random() < 0.6} for _ in range(n)]
+    nd = sum(1 for f in files if f["k"] == "file")
+    folders, left = [], nd
+    while left > 0:
+        k = R.choice([1, 1, 1, 2, 3, left]) if left > 1 else 1
+        k = min(k, left)
+        if R.random() < 0.1:
+            folders.append({"n": 0, "crc": R.choice(["sub", "none"])})
+        folders.append({"n": k, "crc": R.choice(["sub", "sub", "folder", "none"])})
+        left -= k
+    omit = all(f["n"] == 1 for f in folders) and R.random() < 0.5
+    nosub = omit and all(f["crc"] != "sub" for f in folders) and R.random() < 0.5
+    return {"files": files, "folders": folders, "omitnum": omit, "nosub": nosub, "efvec": R.choice(["auto", "always"])}
 
 
 def read_case(case):
@@ -225,6 +243,9 @@ def run(tier, rep, ev):
         small = [x for x in lays if len(x["lay"]["files"]) <= 2]
         lays = small + R.sample([x for x in lays if len(x["lay"]["files"]) > 2], 2500 - min(2500, len(small)))
     cases = [(x["lay"], R.getrandbits(30)) for x in lays]
+    # beyond the model's bound: random layouts of 5..25 files (vector lengths around the multiples of 8), judged by the same Sem
+    for _ in range(150 if tier == "quick" else 3000):
+        cases.append((big_layout(R, R.choice([5, 7, 8, 8, 9, 15, 16, 16, 17, 24, 25])), R.getrandbits(30)))
     outs = sandbox.run_cases(read_case, cases, timeout=40, nproc=16, slice_size=32)
     traces, origins, skipped = [], [], 0
     for c, o in zip(cases, outs):
